@@ -102,11 +102,14 @@ Definition lines_script_ok (old new : list bytes) (ds : script) : bool := script
 (* What FileDiff.Consume validates against: the lines of the (possibly stripped) blobs *)
 Definition file_diff_ok (ws : bool) (a b : bytes) (ds : script) : bool :=
   lines_script_ok (split_lines (strip ws a)) (split_lines (strip ws b)) ds.
+Definition file_diff_ok_before_fix (ws : bool) (a b : bytes) (ds : script) : bool :=
+  lines_script_ok (split_lines (strip_before_fix ws a)) (split_lines (strip_before_fix ws b)) ds.
 
 (* The property itself, independent of how the implementation strips: the lines are the lines of the blobs as
    CountLines sees them, and with WhitespaceIgnore two lines are "identical" when they are equal after removing
    the spaces.  This is the oracle applied to the implementation's output. *)
-Definition line_eq (ws : bool) (x y : bytes) : bool := list_eqb (strip ws x) (strip ws y).
+Definition unspace (ws : bool) (l : bytes) : bytes := if ws then remove_spaces l else l.
+Definition line_eq (ws : bool) (x y : bytes) : bool := list_eqb (unspace ws x) (unspace ws y).
 Definition spec_ok (ws : bool) (a b : bytes) (ds : script) : bool :=
   script_ok (line_eq ws) (split_lines a) (split_lines b) ds.
 
